@@ -331,6 +331,8 @@ func buildOPRs(chain factom.Bytes32, cfg Config, h uint32, s *OPRSpec, prev []st
 		addr := NewKey(s.MinerBase + i%miners).FA().String()
 		if i < s.BadAddrWinner {
 			addr = "notanaddress"
+		} else if i < s.BadAddrWinner+s.BurnPayout {
+			addr = AddrOf(AddrOldBurn).String()
 		}
 		out = append(out, mk(i, era.OPRVer, int32(h), prevW, addr, jitter(rng, scaled, s.Jitter)))
 	}
